@@ -504,7 +504,7 @@ class DiscreteFourierTransform(DiscreteFourierTransformBase):
         sign = '+' if self.sign == '-' else '-'
         return DiscreteFourierTransformInverse(
             domain=self.range, range=self.domain, axes=self.axes,
-            halfcomplex=self.halfcomplex, sign=sign)
+            halfcomplex=self.halfcomplex, sign=sign, impl=self.impl)
 
 
 class DiscreteFourierTransformInverse(DiscreteFourierTransformBase):
@@ -691,7 +691,7 @@ class DiscreteFourierTransformInverse(DiscreteFourierTransformBase):
         sign = '-' if self.sign == '+' else '+'
         return DiscreteFourierTransform(
             domain=self.range, range=self.domain, axes=self.axes,
-            halfcomplex=self.halfcomplex, sign=sign)
+            halfcomplex=self.halfcomplex, sign=sign, impl=self.impl)
 
 
 class FourierTransformBase(Operator):
